@@ -5,7 +5,7 @@ import Nstd.Seq.Model
   items with `value`, `prev`, `next` fields.
 
   Addresses: `0` is `&endItem` (the end sentinel, `_end.item`); the items of block `b` have the
-  addresses `4b+1 … 4b+4`; a null pointer is `none`.  `prev 0` is `endItem.prev`.
+  addresses `bk*b+1 … bk*b+bk`; a null pointer is `none`.  `prev 0` is `endItem.prev`.
   (`Props.ptr_insert_refines` / `ptr_remove_refines` relate this model to the chain model of Model.lean.)
 -/
 namespace Nstd.Seq.Ptr
@@ -21,19 +21,22 @@ structure PList where
   size : Nat             -- `_size`
   free : Option Nat      -- `freeItem`
   nblocks : Nat
+  bk : Nat               -- items per block (`sizeof(Item) * bk` in the allocation, `end = i + bk` in the fill loop)
 
-/-- `List()`: `_begin(&endItem)`, `endItem.prev = 0`, `endItem.next = 0`, no blocks -/
-def init : PList :=
-  { val := fun _ => 0, prev := fun _ => none, next := fun _ => none, begin := 0, size := 0, free := none, nblocks := 0 }
+/-- `List()`: `_begin(&endItem)`, `endItem.prev = 0`, `endItem.next = 0`, no blocks; `k` = items per block -/
+def init (k : Nat) : PList :=
+  { val := fun _ => 0, prev := fun _ => none, next := fun _ => none, begin := 0, size := 0, free := none, nblocks := 0,
+    bk := k }
 
-/-- the `if(!item)` branch of `insert`: a new block, its four items pushed onto the (empty) free list
-    in address order (`i->prev = item; item = i;`), `freeItem = item` -/
+/-- the `if(!item)` branch of `insert`: a new block, its `bk` items (addresses `bk*b + 1 … bk*b + bk`) pushed onto
+    the (empty) free list in address order (`i->prev = item; item = i;`: the first item gets a null `prev`, every
+    other one points to its predecessor in the block), `freeItem = item` (the last one) -/
 def refill (p : PList) : PList :=
   let b := p.nblocks
+  let k := p.bk
   { p with
-    prev := set (set (set (set p.prev (4 * b + 1) none) (4 * b + 2) (some (4 * b + 1))) (4 * b + 3) (some (4 * b + 2)))
-              (4 * b + 4) (some (4 * b + 3)),
-    free := some (4 * b + 4), nblocks := b + 1 }
+    prev := fun x => if k * b < x ∧ x ≤ k * b + k then (if x = k * b + 1 then none else some (x - 1)) else p.prev x,
+    free := some (k * b + k), nblocks := b + 1 }
 
 /-- the body of `insert` once `item` has been taken from the head of the free list -/
 def link (p1 : PList) (item pos : Nat) (v : Int) : PList :=
@@ -50,7 +53,7 @@ def link (p1 : PList) (item pos : Nat) (v : Int) : PList :=
   let next2 := set next1 item (some pos)                     -- item->next = insertPos;
   let prev2 := set prev1 pos (some item)                     -- insertPos->prev = item;
   { val := val, prev := prev2, next := next2, begin := begin1, size := p1.size + 1,   -- ++_size;
-    free := free, nblocks := p1.nblocks }
+    free := free, nblocks := p1.nblocks, bk := p1.bk }
 
 /-- `Iterator insert(const Iterator& position, const T& value)`; returns the new state and the item -/
 def insert (p : PList) (pos : Nat) (v : Int) : Option (PList × Nat) :=
